@@ -144,10 +144,25 @@ class Inliner:
         s.log = log if log is not None else []
         s.root = None
 
+    @staticmethod
+    def _loose(t):
+        """signature shape: pointers compare equal whatever they point to (llvm-link renames struct types that two TUs
+        define, so nominal equality would drop genuine targets)"""
+        def k(x):
+            if isinstance(x, PtrT):
+                return 'p'
+            if isinstance(x, IntT):
+                return 'i%d' % x.bits
+            if isinstance(x, VoidT):
+                return 'v'
+            return repr(x.key())
+        return (k(t.ret), tuple(k(p) for p in t.params), t.vararg)
+
     def candidates(s, fty):
         c = []
+        lk = s._loose(fty)
         for n in sorted(s.taken):
-            if teq(fn_type_of(s.mod, n), fty):
+            if n in s.mod.functions and s._loose(fn_type_of(s.mod, n)) == lk:
                 c.append(n)
         if s.indirect_filter:
             c = s.indirect_filter(s.root, fty, c)
